@@ -98,6 +98,7 @@ struct Stats {
 	std::vector<std::string> samples_nt, samples_tr;
 	std::map<std::string, std::string> extra;   // free-form key -> json value
 	bool exhaustive = false;
+	uint64_t n_seen_nt = 0, n_seen_tr = 0;
 	void add(const CaseResult &r, const Tape &t);
 	void add_enum(uint64_t hash, bool nontrivial, const char *cls); // for enumerators
 	void sample(const std::string &s, bool nt);
